@@ -86,6 +86,7 @@ def run(chk):
     rule_qualified_refs(chk)
     rule_qualified_eval(chk)
     rule_raw_names(chk)
+    rule_leaf_identifiers(chk)
 
 
 def rule_builtins(chk, res):
@@ -222,6 +223,49 @@ def rule_raw_names(chk):
                    "language, or that the NameMap gave to something else, is emitted as written" % (b["name"], ent, len(sites), tgt.upper()), where(b, node),
                    sample={"target": tgt, "entity": ent, "sites": len(sites)})
         chk.floor("C15.floor/%s/raw-name-kinds" % tgt, len(seen), 5, "entity kinds whose source name the %s exporter reads" % tgt, crate)
+
+
+LEAF_IDENTIFIER_SITES = {
+    # (crate, leaf-name getter of an entity that can live in a namespace) -> functions that may spell a reference with it, and why
+    ("rssl_hlsl", "get_function_name"): {"generate_user_call": "method calls: `object.method(..)` and calls from inside the struct need no qualification"},
+    ("rssl_msl", "get_function_name"): {"generate_user_call": "method calls: `object.method(..)` and calls from inside the struct need no qualification"},
+    ("rssl_hlsl", "get_global_name"): {"generate_global_variable": "member of the inline constant buffer struct, not a reference to the global"},
+    ("rssl_msl", "get_global_name"): {"generate_pipeline": "members of the argument buffer structs and entry-point locals, declared right there",
+                                      "generate_expression": "globals are function parameters in Metal: a parameter has no namespace"},
+}
+
+
+def rule_leaf_identifiers(chk):
+    """References to namespaced entities are spelled with their qualified name: an identifier built
+    (ScopedIdentifier::trivial) from a LEAF name getter - get_function_name, get_struct_name, get_enum_name,
+    get_global_name, get_enum_value_name - loses the namespace, so it can name nothing, or a same-named entity of another
+    scope. The places where a leaf name is right are a frozen, reasoned set; any other is reported."""
+    f = chk.facts
+    LEAF = {"get_function_name", "get_struct_name", "get_enum_name", "get_global_name", "get_enum_value_name"}
+    n = 0
+    for crate in ("rssl_hlsl", "rssl_msl"):
+        seen = {}
+        for b in f.crates[crate]["bodies"]:
+            if "thir" not in b:
+                continue
+            lets = F.let_table(b["thir"])
+            owner = b["name"] if b["kind"] != "Closure" else short(b.get("parent") or "")
+            for c in F.exprs(b["thir"], "Call"):
+                if short(c.get("fn") or "") == "trivial" and "ScopedIdentifier" in (c.get("fn") or "") and c.get("args"):
+                    arg = F.inline_lets(b["thir"], c["args"][0], 4, lets)
+                    for x in F.exprs(arg, "Call"):
+                        g = short(x.get("fn") or "")
+                        if g in LEAF:
+                            seen.setdefault((g, owner), []).append((b, c))
+        tgt = crate.replace("rssl_", "")
+        for (g, owner), sites in sorted(seen.items()):
+            n += 1
+            reason = LEAF_IDENTIFIER_SITES.get((crate, g), {}).get(owner)
+            b, node = sites[0]
+            chk.ob("C15.leafref/%s/%s/%s" % (tgt, g, owner), reason is not None, "%d site(s): %s" % (len(sites), reason) if reason else
+                   "%s spells a reference with the unqualified name from %s (%d site(s)): an entity declared inside a namespace is then referred to without it - the reference names nothing, "
+                   "or a same-named entity of the enclosing scope" % (owner, g, len(sites)), where(b, node), sample={"target": tgt, "getter": g, "function": owner, "sites": len(sites)})
+    chk.floor("C15.floor/leaf-identifier-sites", n, 5, "places where a leaf name is spelled as an identifier", "rssl_hlsl / rssl_msl")
 
 
 def rule_flow(chk):
